@@ -32,6 +32,7 @@ func init() {
 		"tc.msg":           exTcMsg,
 		"tc.payload":       exTcPayload,
 		"tc.parse":         exTcParse,
+		"tc.domain":        exTcDomain,
 		"tc.check":         exTcCheck,
 		"go.tc.honest":     goTcHonest,
 		"go.tc.subst":      goTcSubst,
@@ -92,6 +93,30 @@ func (e *stubExecutor) RunSmcMethodByID(ctx context.Context, id ton.AccountID, m
 		return 0, tlb.VmStack{{SumType: "VmStkCell", VmStkCell: tlb.Ref[boc.Cell]{Value: *boc.NewCell()}}}, nil
 	case e.mode == "fail:two":
 		return 0, tlb.VmStack{{SumType: "VmStkTinyInt", VmStkTinyInt: 1}, {SumType: "VmStkTinyInt", VmStkTinyInt: 2}}, nil
+	case e.mode == "fail:nil":
+		return 0, nil, nil
+	case e.mode == "fail:null":
+		return 0, tlb.VmStack{{SumType: "VmStkNull"}}, nil
+	case e.mode == "fail:nan":
+		return 1, tlb.VmStack{{SumType: "VmStkNan"}}, nil
+	case e.mode == "fail:slice":
+		return 0, tlb.VmStack{{SumType: "VmStkSlice"}}, nil
+	case e.mode == "fail:builder":
+		return 0, tlb.VmStack{{SumType: "VmStkBuilder", VmStkBuilder: tlb.Ref[boc.Cell]{Value: *boc.NewCell()}}}, nil
+	case e.mode == "fail:cont":
+		return 0, tlb.VmStack{{SumType: "VmStkCont"}}, nil
+	case e.mode == "fail:tuple":
+		return 0, tlb.VmStack{{SumType: "VmStkTuple", VmStkTuple: tlb.VmStkTuple{Len: 0}}}, nil
+	case e.mode == "fail:badsum":
+		return 0, tlb.VmStack{{SumType: "NoSuchConstructor"}}, nil
+	case e.mode == "fail:emptysum":
+		return 0, tlb.VmStack{{}}, nil
+	case e.mode == "fail:intnull":
+		return 0, tlb.VmStack{{SumType: "VmStkInt", VmStkInt: tlb.Int257(*big.NewInt(7))}, {SumType: "VmStkNull"}}, nil
+	case e.mode == "fail:nullint":
+		return 0, tlb.VmStack{{SumType: "VmStkNull"}, {SumType: "VmStkTinyInt", VmStkTinyInt: 7}}, nil
+	case e.mode == "fail:bigcode":
+		return 0xffffffff, tlb.VmStack{{SumType: "VmStkTinyInt", VmStkTinyInt: 7}}, nil
 	case strings.HasPrefix(e.mode, "int:"):
 		v, ok := new(big.Int).SetString(e.mode[4:], 10)
 		if !ok {
@@ -252,6 +277,18 @@ func exTcPayload(a []string) string {
 	return "ok"
 }
 
+// tc.domain <configured hex> <presented hex>: StaticDomain
+func exTcDomain(a []string) string {
+	ok, err := tonconnect.StaticDomain(string(h.MustUnHex(a[0])))(string(h.MustUnHex(a[1])))
+	if err != nil {
+		return "err"
+	}
+	if ok {
+		return "1"
+	}
+	return "0"
+}
+
 func exTcParse(a []string) string {
 	k, err := tonconnect.ParseStateInit(stateInitString(a[1]))
 	if err != nil {
@@ -282,7 +319,10 @@ func exTcCheck(a []string) string {
 			}
 			return false, errors.New("payload refused")
 		},
-		func(string) (bool, error) {
+		func(d string) (bool, error) {
+			if strings.HasPrefix(a[3], "s:") {
+				return tonconnect.StaticDomain(string(h.MustUnHex(a[3][2:])))(d)
+			}
 			switch a[3] {
 			case "1":
 				return true, nil
@@ -703,6 +743,15 @@ func goTcGenPayload(a []string) string {
 
 // --------------------------------------------------------------------------------------------------- generator
 
+var failModes = []string{"fail:err", "fail:code", "fail:empty", "fail:cell", "fail:two", "fail:nil", "fail:null", "fail:nan",
+	"fail:slice", "fail:builder", "fail:cont", "fail:tuple", "fail:badsum", "fail:emptysum", "fail:intnull", "fail:nullint", "fail:bigcode"}
+
+// domain pairs (configured, presented) for StaticDomain: only byte-identical strings match
+func domainVariants(g *h.G, d string) []string {
+	return []string{d, d + ":443", "sub." + d, strings.ToUpper(d), d + ".", " " + d, "https://" + d, d + "/", "ex\u00e4mple.org",
+		"exa\u0308mple.org", "xn--exmple-cua.org", "\u0435xample.org", "", d[:len(d)-1], d + "\x00"}
+}
+
 var knownVers = []wallet.Version{wallet.V1R1, wallet.V1R2, wallet.V1R3, wallet.V2R1, wallet.V2R2, wallet.V3R1, wallet.V3R2,
 	wallet.V4R1, wallet.V4R2, wallet.V5Beta, wallet.V5R1}
 
@@ -776,6 +825,16 @@ func genC19(g *h.G) {
 		}
 		g.Emit("tc.msg", fmt.Sprint(wc), h.Hex(g.Bytes(32)), h.Hex(dom), fmt.Sprint(ts), h.Hex(g.Bytes(g.Pick(0, 1, 32, 64, 100))))
 	}
+	// ---- StaticDomain, and the digest layout on multi-byte domains
+	for _, d := range []string{"example.org", "a", "ton-connect.io"} {
+		vs := domainVariants(g, d)
+		for _, x := range vs {
+			for _, y := range []string{d, x, vs[g.Rng.Intn(len(vs))]} {
+				g.Emit("tc.domain", h.Hex([]byte(x)), h.Hex([]byte(y)))
+			}
+			g.Emit("tc.msg", "0", h.Hex(g.Bytes(32)), h.Hex([]byte(x)), fmt.Sprint(now.Unix()), h.Hex(g.Bytes(16)))
+		}
+	}
 	// ---- payloads
 	for i := 0; i < g.Scale(80, 2000); i++ {
 		secret := g.Bytes(g.Pick(0, 1, 8, 32, 64, 65, 120))
@@ -845,7 +904,8 @@ func genC19(g *h.G) {
 			c := base()
 			c.emit(g, nowNs, known, seed)
 			c = base()
-			c.getter = []string{"fail:err", "fail:code", "fail:empty", "fail:cell", "fail:two"}[g.Rng.Intn(5)]
+			c.getter = failModes[g.Rng.Intn(len(failModes))]
+			g.Count("getter_" + c.getter)
 			c.emit(g, nowNs, known, seed)
 			c = base()
 			c.stateInit = "empty"
@@ -863,7 +923,7 @@ func genC19(g *h.G) {
 					c.getter = "fail:err"
 				}
 				c.cand = append(c.cand, o.pub)
-				kind := g.Rng.Intn(24)
+				kind := g.Rng.Intn(26)
 				switch kind {
 				case 0:
 					c.payloadOk = "0"
@@ -975,6 +1035,16 @@ func genC19(g *h.G) {
 						c.stateInit = siTable + "/" + oTable
 					} else {
 						c.stateInit = "bocerr"
+					}
+				case 21, 22: // StaticDomain as the domain check: ports, sub-domains, case, Unicode look-alikes are other domains
+					vs := domainVariants(g, "example.org")
+					conf := vs[g.Rng.Intn(len(vs))]
+					if g.Rng.Intn(2) == 0 {
+						conf = c.domain
+					}
+					c.domOk = "s:" + h.Hex([]byte(conf))
+					if conf == "" {
+						c.domOk = "s:-"
 					}
 				case 19, 20: // impersonation: the victim's address, the attacker's state-init and the attacker's signature
 					c.getter = "fail:err"
